@@ -92,4 +92,75 @@ theorem TPN_params_eq (t : Stage K) (Z0 : K) :
   cases N <;> simp [TPN_Aparams, TPN_Bparams, TPN_Gparams, TPN_Hparams, TPN_Yparams, TPN_Zparams, conv,
     A_to_A, B_to_B, G_to_G, H_to_H, Y_to_Y, Z_to_Z]
 
+/-- the X-model conversion selected by the target class -/
+def modelOf : MRep → Stage K → K → Stage K
+  | .A => TPN_Amodel | .B => TPN_Bmodel | .G => TPN_Gmodel | .H => TPN_Hmodel | .Y => TPN_Ymodel | .Z => TPN_Zmodel
+
+theorem modelOf_rep (P : MRep) (t : Stage K) (Z0 : K) : (modelOf P t Z0).rep = P := by
+  cases P <;> rfl
+
+theorem modelOf_m (P : MRep) (t : Stage K) (Z0 : K) : (modelOf P t Z0).m = conv t.rep P t.m Z0 := by
+  obtain ⟨h1, h2, h3, h4, h5, h6⟩ := TPN_params_eq t Z0
+  cases P <;> simp only [modelOf, TPN_Amodel, TPN_Bmodel, TPN_Gmodel, TPN_Hmodel, TPN_Ymodel, TPN_Zmodel] <;> assumption
+
+theorem modelOf_rel (P : MRep) (t : Stage K) (Z0 : K) (p : Port K) :
+    (modelOf P t Z0).rel p ↔ arel P (conv t.rep P t.m Z0) (modelOf P t Z0).s1 (modelOf P t Z0).s2 p := by
+  rw [Stage.rel, modelOf_rep, modelOf_m]
+
+def okModel (N P : MRep) (m : M2 K) (Z0 : K) : Prop :=
+  N = P ∨ (okc N .B m Z0 ∧ okc N P m Z0 ∧ okc .B P (conv N .B m Z0) Z0)
+
+theorem model_same (N : MRep) (m : M2 K) (s1 s2 Z0 : K) : modelOf N ⟨N, m, s1, s2⟩ Z0 = ⟨N, m, s1, s2⟩ := by
+  cases N <;> rfl
+
+theorem B_chain_affine (ba bb : M2 K) (va ia vb ib V1 I1 V2 I2 : K) :
+    (∃ Vm Im, arel .B ba va ia ⟨V1, I1, Vm, Im⟩ ∧ arel .B bb vb ib ⟨Vm, -Im, V2, I2⟩) ↔
+    arel .B (M2.mul bb ba) (vb + (mulVec2 bb va ia).1) (ib + (mulVec2 bb va ia).2) ⟨V1, I1, V2, I2⟩ := by
+  simp only [arel, lin2, M2.mul, mulVec2]
+  constructor
+  · rintro ⟨Vm, Im, ⟨h1, h2⟩, h3, h4⟩
+    constructor
+    · rw [h3, h1, h2]; ring
+    · rw [h4, h1, h2]; ring
+  · rintro ⟨h1, h2⟩
+    refine ⟨ba.a11 * V1 + ba.a12 * I1 + va, -(ba.a21 * V1 + ba.a22 * I1 + ia), ⟨rfl, by ring⟩, ?_, ?_⟩
+    · rw [h1]; ring
+    · rw [h2]; ring
+
+/-! ### cascades -/
+
+theorem cascRel_single (t : Stage K) (V1 I1 V2 I2 : K) :
+    cascRel [t] V1 I1 V2 I2 ↔ t.rel ⟨V1, I1, V2, I2⟩ := by
+  simp only [cascRel]
+  constructor
+  · rintro ⟨Vm, Im, h, rfl, h2⟩
+    rw [neg_neg] at h2; subst h2; exact h
+  · intro h; exact ⟨V2, I2, h, rfl, (neg_neg _).symm⟩
+
+theorem cascRel_append (l1 l2 : List (Stage K)) (V1 I1 V2 I2 : K) :
+    cascRel (l1 ++ l2) V1 I1 V2 I2 ↔ ∃ Vm Im, cascRel l1 V1 I1 Vm Im ∧ cascRel l2 Vm (-Im) V2 I2 := by
+  induction l1 generalizing V1 I1 with
+  | nil =>
+    simp only [List.nil_append, cascRel]
+    constructor
+    · intro h; exact ⟨V1, -I1, ⟨rfl, rfl⟩, by rw [neg_neg]; exact h⟩
+    · rintro ⟨Vm, Im, ⟨rfl, rfl⟩, h⟩; rw [neg_neg] at h; exact h
+  | cons t rest ih =>
+    simp only [List.cons_append, cascRel]
+    constructor
+    · rintro ⟨Va, Ia, ht, h⟩
+      obtain ⟨Vm, Im, h1, h2⟩ := (ih _ _).mp h
+      exact ⟨Vm, Im, ⟨Va, Ia, ht, h1⟩, h2⟩
+    · rintro ⟨Vm, Im, ⟨Va, Ia, ht, h1⟩, h2⟩
+      exact ⟨Va, Ia, ht, (ih _ _).mpr ⟨Vm, Im, h1, h2⟩⟩
+
+theorem M2_mul_assoc (a b c : M2 K) : M2.mul (M2.mul a b) c = M2.mul a (M2.mul b c) := by
+  simp only [M2.mul, M2.mk.injEq]; refine ⟨?_, ?_, ?_, ?_⟩ <;> ring
+
+theorem M2_one_mul (a : M2 K) : M2.mul ⟨1, 0, 0, 1⟩ a = a := by
+  obtain ⟨a, b, c, d⟩ := a; simp [M2.mul]
+
+theorem M2_mul_one (a : M2 K) : M2.mul a ⟨1, 0, 0, 1⟩ = a := by
+  obtain ⟨a, b, c, d⟩ := a; simp [M2.mul]
+
 end Lcapy.TwoPort
